@@ -368,7 +368,7 @@ def _place_end(body):
 
 
 RE_INT = re.compile(r'^(-?[\d_]+)_?(usize|isize|u8|u16|u32|u64|u128|i8|i16|i32|i64|i128)$')
-RE_MAXMIN = re.compile(r'^(usize|isize|u8|u16|u32|u64|i8|i16|i32|i64)::(MAX|MIN)$')
+RE_MAXMIN = re.compile(r'^(?:core::num::<impl )?(usize|isize|u8|u16|u32|u64|i8|i16|i32|i64)>?::(MAX|MIN)$')
 INT_BITS = {'usize': 64, 'isize': 64, 'u8': 8, 'u16': 16, 'u32': 32, 'u64': 64, 'u128': 128,
             'i8': 8, 'i16': 16, 'i32': 32, 'i64': 64, 'i128': 128, 'char': 32}
 
